@@ -6,11 +6,15 @@ of the lexer/scoper: whatever SQLite executes must be accepted).
 A work item is {'id', 'engine', 'text', 'preds': [...], 'meta': {...}}.
 The result is {'id', 'engine', 'parse': None | {...}, 'preds': {p: rec}} with
   rec = {'status': 'ok' | 'diag' | 'internal', 'cls', 'msg', 'tb',
-         'texts': [defines_and_exports..., main_predicate_sql],
-         'trace': {'ev', 'strs'}, 'exec': None | 'ok' | 'error', 'exec_msg'}
+         'texts': [defines_and_exports..., main_predicate_sql] (only with
+         item['keep_texts']), 'line' / 'key' / 'kinds' / 'nstr' (see Attach),
+         'exec': None | 'ok' | 'error', 'exec_msg'}
 """
+import collections
 import contextlib
+import hashlib
 import io
+import json
 import traceback
 
 from harness import impl
@@ -41,6 +45,18 @@ def _Execute(m, preamble, texts):
     cur.fetchall()
   finally:
     con.close()
+
+
+def Attach(rec, trace, engine):
+  """Stores the trace of a compiled predicate in compact form: `line` is the
+  JSON text SqlScopeTrace reads (without the id), `key` identifies equal traces
+  so that each distinct one is sent to TLC once."""
+  rec['line'] = json.dumps({'d': engine, 'ev': trace['ev'],
+                            'strs': trace['strs']}, separators=(',', ':'))
+  rec['key'] = hashlib.sha256(rec['line'].encode()).hexdigest()[:20]
+  kinds = collections.Counter(e[0] for e in trace['ev'])
+  rec['kinds'] = dict(kinds)
+  rec['nstr'] = len(trace['strs'])
 
 
 def CompileItem(item):
@@ -74,7 +90,7 @@ def CompileItem(item):
                    msg=impl.ExcText(e)[:400], frames=_Frames(e),
                    tb=traceback.format_exc()[-1500:])
         continue
-      rec['trace'] = sqllex.Script(rec['texts'], item['engine'])
+      Attach(rec, sqllex.Script(rec['texts'], item['engine']), item['engine'])
       if item['engine'] == 'sqlite' and item.get('execute', True):
         try:
           _Execute(m, preamble, rec['texts'])
@@ -84,4 +100,6 @@ def CompileItem(item):
             raise
           rec['exec'] = 'error'
           rec['exec_msg'] = '%s: %s' % (type(e).__name__, str(e)[:300])
+      if not item.get('keep_texts'):
+        del rec['texts']
   return out
